@@ -34,6 +34,7 @@ func TestMain(m *testing.M) {
 		Assumptions: []string{
 			"the common-prefix length is not asserted when no word matches (the property defines it 'of those words')",
 			"the completion callback itself is unexported and needs a terminal; its pure core commands[0][:l] is re-computed from PrefixAll's result",
+			"session family: the interpreter records a name when it is created (first definition, or := which always creates) as name, and name( for a function or name+space otherwise; a later plain = update is not expected to record anything",
 		},
 		Exhaustive:      true,
 		ExhaustiveBound: "all insertion orders of all subsets of size <= 4 over {a,b}^{1..3} and {a,00,ff}^{1..2}; all subsets of {a,b}^{1..3} in ascending, descending and longest-first order",
@@ -307,17 +308,28 @@ func checkSession(c SessCase) error {
 	opts := repl.Options{All: true, ShowEval: true, NoColor: true}
 	type def struct{ name, kind string }
 	var defs []def
+	created := map[string]string{}
 	for _, d := range c.Defs {
 		kind, name := d[:1], d[2:]
 		src := name + " = 1"
-		if kind == "f" {
+		switch kind {
+		case "f":
 			src = "func " + name + "(){1}"
+		case "d": // := of a plain value, whatever the name was before
+			src = name + " := 2.5"
+		case "l": // := of a function value
+			src = name + " := func(x){x}"
+		case "a": // = of a lambda
+			src = name + " = x => x"
 		}
 		_, panicked, errs, _ := repl.EvalOne(context.Background(), s, src, io.Discard, opts)
 		if panicked || len(errs) > 0 {
 			return fmt.Errorf("definition %q failed: %v", src, errs)
 		}
 		defs = append(defs, def{name, kind})
+		if _, was := created[name]; !was || kind == "d" || kind == "l" {
+			created[name] = kind
+		}
 		for _, dd := range defs {
 			if !tr.Contains(dd.name) {
 				return fmt.Errorf("after definitions %v: completion index does not contain %q", c.Defs, dd.name)
@@ -332,6 +344,15 @@ func checkSession(c SessCase) error {
 			if !found {
 				return fmt.Errorf("after definitions %v: no completion %q( or %q+space in %q", c.Defs, dd.name, dd.name, all)
 			}
+			// a name is recorded when it is created (first definition, or := which always creates): what it was
+			// created as last decides which completion must be there (a later plain = update records nothing)
+			want := dd.name + " "
+			if cur := created[dd.name]; cur == "f" || cur == "l" || cur == "a" {
+				want = dd.name + "("
+			}
+			if !tr.Contains(want) {
+				return fmt.Errorf("after definitions %v: %q is now %s but the completion %q is missing (have %q)", c.Defs, dd.name, map[bool]string{true: "a function", false: "a value"}[strings.HasSuffix(want, "(")], want, all)
+			}
 			l, all := tr.PrefixAll(dd.name[:1])
 			if len(all) == 0 || l > len(all[0]) || !strings.HasPrefix(all[0][:l], dd.name[:1]) {
 				return fmt.Errorf("after definitions %v: PrefixAll(%q) = %d,%q", c.Defs, dd.name[:1], l, all)
@@ -343,18 +364,24 @@ func checkSession(c SessCase) error {
 
 func TestSessionIdentifiers(t *testing.T) {
 	pbt.Check(t, 1500, 40000, func(rt *rapid.T) {
-		name := rapid.StringMatching(`[xyz]{1,4}`)
-		n := rapid.IntRange(1, 6).Draw(rt, "n")
+		name := rapid.StringMatching(`[xyz]{1,3}`)
+		n := rapid.IntRange(1, 8).Draw(rt, "n")
 		var c SessCase
 		seen := map[string]bool{}
 		var words [][]byte
 		for i := 0; i < n; i++ {
 			nm := name.Draw(rt, "name")
-			if seen[nm] {
+			if seen[nm] && rapid.Bool().Draw(rt, "skipdup") {
 				continue
 			}
+			k := rapid.SampledFrom([]string{"v", "f", "d", "l", "a"}).Draw(rt, "kind")
+			if seen[nm] && k == "f" {
+				k = "l" // a named function cannot replace an existing binding: use := of a function value
+			}
+			if seen[nm] {
+				pbt.Label("session:name-defined-again")
+			}
 			seen[nm] = true
-			k := rapid.SampledFrom([]string{"v", "f"}).Draw(rt, "kind")
 			c.Defs = append(c.Defs, k+":"+nm)
 			words = append(words, []byte(nm))
 		}
@@ -383,5 +410,5 @@ func oracle(kind string, raw json.RawMessage) error {
 	return check(c)
 }
 
-func TestReplay(t *testing.T)  { pbt.RunReplay(t, oracle) }
+func TestReplay(t *testing.T)   { pbt.RunReplay(t, oracle) }
 func TestARegress(t *testing.T) { pbt.RunRegress(t, "C20", oracle) }
